@@ -335,7 +335,16 @@ var pathoFlat = []string{"|", ";", "!", "'", "\"", "`", "\\", "0x", "1e", ".", "
 func genTotalCase(rt *rapid.T) (string, map[string]string, string) {
 	g := gen.NewG(rt, gen.Cfg{MaxDepth: 3, MaxOps: 4, JoinDepth: 2, Lets: true, Hostile: true})
 	var src, class string
-	switch k := rapid.IntRange(0, 11).Draw(rt, "class"); {
+	switch k := rapid.IntRange(0, 12).Draw(rt, "class"); {
+	case k == 12:
+		// long valid pipelines: many operators, many generated subquery names
+		nops := rapid.IntRange(5, 150).Draw(rt, "nops")
+		var sb strings.Builder
+		sb.WriteString("T")
+		for j := 0; j < nops && sb.Len() < 4000; j++ {
+			sb.WriteString(rapid.SampledFrom([]string{" | where a > 1", " | extend c = a + 1", " | take 5", " | project a, b, c = 1", " | summarize a = count() by b", " | sort by a", " | count", " | join (U | take 1) on a", " | as N", " | top 2 by a"}).Draw(rt, "longop"))
+		}
+		src, class = sb.String(), "long-pipeline"
 	case k == 0:
 		src, class = string(rapid.SliceOfN(rapid.Byte(), 0, 200).Draw(rt, "bytes")), "random-bytes"
 	case k <= 2:
